@@ -633,8 +633,9 @@ def formatnum_fn(
     else:
         sep = ctx.LOCALIZATION_DATA["grouping_separator"]
 
-    if sep in arg0:
-        # separator only allowed when R)eversing
+    if sep and sep != "." and sep in arg0:
+        # separator only allowed when R)eversing ("." in the raw input is
+        # always the decimal point, also where it is the locale's separator)
         return arg0
 
     decimal_point = ctx.LOCALIZATION_DATA["decimal_point"]
@@ -693,11 +694,13 @@ def _formatnum_reverse(ctx: "Wtp", arg0: str) -> str:
 
     # Kludge for French; the locale data has non-breaking spaces as the
     # separators, but it seems clear we must also allow normal spaces
+    # Remove the separators first: where "." is the separator and "," the
+    # decimal mark, converting the mark first would delete it again
     if sep == "\xa0":  # non-breaking space
-        return arg0.replace(decimal, ".").replace(sep, "").replace(" ", "")
+        return arg0.replace(sep, "").replace(" ", "").replace(decimal, ".")
 
     # Currently only doing the minimum by removing thousand separators
-    return arg0.replace(decimal, ".").replace(sep, "")
+    return arg0.replace(sep, "").replace(decimal, ".")
 
 
 def dateformat_fn(
